@@ -100,11 +100,11 @@ SELPSEUDOS = ['not', 'is', 'where', 'has', 'matches']
 
 class Gen:
     def __init__(self, rng, types=TYPES, classes=CLASSES, ids=IDS, attrs=ATTRS, pcs=PCS, nths=NTHS, pes=PES,
-                 selpseudos=SELPSEUDOS, p_pe=0.08, p_selpseudo=0.18, max_depth=1, p_univ=0.08):
+                 selpseudos=SELPSEUDOS, p_pe=0.08, p_selpseudo=0.18, max_depth=1, p_univ=0.08, p_type=0.55):
         self.rng = rng
         self.types, self.classes, self.ids, self.attrs = types, classes, ids, attrs
         self.pcs, self.nths, self.pes, self.selpseudos = pcs, nths, pes, selpseudos
-        self.p_pe, self.p_selpseudo, self.max_depth, self.p_univ = p_pe, p_selpseudo, max_depth, p_univ
+        self.p_pe, self.p_selpseudo, self.max_depth, self.p_univ, self.p_type = p_pe, p_selpseudo, max_depth, p_univ, p_type
 
     # -- simple selectors
     def cls(self):
@@ -142,9 +142,9 @@ class Gen:
         rng = self.rng
         parts = []
         r = rng.random()
-        if r < 0.55:
+        if r < self.p_type:
             parts.append(('type', rng.choice(self.types)))
-        elif r < 0.55 + self.p_univ:
+        elif r < self.p_type + self.p_univ:
             parts.append(('univ', '*'))
         for _ in range(rng.choice([0, 0, 1, 1, 2])):
             c = self.cls()
